@@ -510,7 +510,11 @@ pub fn gen_bin(c: &mut dyn Choices) -> Bin {
 
 pub fn gen_flat(c: &mut dyn Choices, k: usize) -> Flat {
   match c.pick(5) {
-    0 => Flat::MergeAll(1 + c.pick(k + 1)),
+    0 => {
+      // (0 added as the last alternative: recorded tapes keep their meaning) a limit of 0 parks every inner observable
+      let v = c.pick(k + 2);
+      Flat::MergeAll(if v == k + 1 { 0 } else { 1 + v })
+    }
     1 => Flat::ConcatAll,
     2 => Flat::Flatten,
     3 => Flat::FlatMap,
